@@ -527,6 +527,14 @@ def h_issubclass(ctx, fr, args, kw):
     return issubclass(a, b)
 
 
+def h_abs(ctx, fr, args, kw):
+    v = args[0]
+    if isinstance(v, (SInt, SOpt)):
+        t = raw_int(v)
+        return mkint(ITE(LT(t, 0), SUB(0, t), t))
+    return abs(v)
+
+
 def h_str(ctx, fr, args, kw):
     return ops().to_str(ctx, fr, args[0])
 
@@ -536,7 +544,7 @@ BUILTINS = {
     min: h_minmax(True), max: h_minmax(False), iter: h_iter, next: h_next, hash: h_hash,
     _copy.copy: h_copy, _copy.deepcopy: h_deepcopy, sys.intern: lambda c, f, a, k: a[0],
     getattr: h_getattr, hasattr: h_hasattr, print: h_print, sorted: h_sorted, id: h_id,
-    issubclass: h_issubclass,
+    issubclass: h_issubclass, abs: h_abs,
 }
 
 
